@@ -74,6 +74,21 @@ NO_RAISE: frozenset[str] = frozenset(
         "builtins.dict.get",
         "logging.getLogger",
         "logging.Logger.log",
+        # the convenience forms of Logger.log: errors while rendering / emitting are handled inside logging (Handler.handleError)
+        "logging.Logger.debug",
+        "logging.Logger.info",
+        "logging.Logger.warning",
+        "logging.Logger.error",
+        "logging.Logger.exception",
+        "logging.Logger.critical",
+        "logging.Logger.isEnabledFor",
+        "logging.Logger.getChild",
+        "logging.debug",
+        "logging.info",
+        "logging.warning",
+        "logging.error",
+        "logging.exception",
+        "logging.critical",
         "functools.partial",
         "builtins.TimeoutError",
         "builtins.StopAsyncIteration",
